@@ -1352,6 +1352,7 @@ wait:
 }
 
 func c03exec(c *h.Ctx, cs *h.Case) {
+	defer c03hangDump(cs)()
 	log.SetDebugVisible(0)
 	st := &c03state{cs: cs, defMax: network.MaxPacketSize, max: int(network.MaxPacketSize),
 		links: map[string]*c03link{}, tags: map[string]bool{}}
